@@ -1576,3 +1576,144 @@ mod tests {
         }
     }
 }
+/// Verification hooks (feature `echo_verif`): raw access to the pending queue, both sort
+/// implementations and both reservation implementations.
+#[cfg(feature = "echo_verif")]
+pub mod verif {
+    use super::{
+        cmp_thin, LegacyScheduler, PendingRewrite, PendingTx, RadixScheduler, RewritePhase,
+        SMALL_SORT_THRESHOLD,
+    };
+    use crate::footprint::Footprint;
+    use crate::ident::{CompactRuleId, NodeId, NodeKey, WarpId};
+    use crate::tick_delta::OpOrigin;
+    use crate::tx::TxId;
+
+    /// The batch size at or below which `drain` uses the comparison sort.
+    pub const SMALL_SORT_THRESHOLD_VALUE: usize = SMALL_SORT_THRESHOLD;
+
+    /// One queue entry as observed after sorting: `(scope, rule, nonce, payload)`.
+    pub type RawEntry = ([u8; 32], u32, u32, u64);
+
+    /// The real pending queue keyed by raw `(scope hash, rule id)` with `u64` payloads.
+    #[derive(Debug, Default)]
+    pub struct RawQueue {
+        q: PendingTx<u64>,
+    }
+
+    impl RawQueue {
+        /// Creates an empty queue.
+        #[must_use]
+        pub fn new() -> Self {
+            Self::default()
+        }
+
+        /// Enqueues with the production last-wins semantics.
+        pub fn enqueue(&mut self, scope: [u8; 32], rule: u32, payload: u64) {
+            self.q.enqueue(scope, rule, payload);
+        }
+
+        /// Number of distinct pending keys.
+        #[must_use]
+        pub fn len(&self) -> usize {
+            self.q.thin.len()
+        }
+
+        /// True when nothing is pending.
+        #[must_use]
+        pub fn is_empty(&self) -> bool {
+            self.q.thin.is_empty()
+        }
+
+        fn entries(&self) -> Vec<RawEntry> {
+            self.q
+                .thin
+                .iter()
+                .map(|r| {
+                    let payload = self
+                        .q
+                        .fat
+                        .get(r.handle)
+                        .copied()
+                        .flatten()
+                        .unwrap_or(u64::MAX);
+                    (r.scope_be32, r.rule_id, r.nonce, payload)
+                })
+                .collect()
+        }
+
+        /// Runs the production radix sort directly (regardless of batch size) and returns the
+        /// resulting order without draining.
+        pub fn sorted_by_radix(&mut self) -> Vec<RawEntry> {
+            self.q.radix_sort();
+            self.entries()
+        }
+
+        /// Runs the production comparison sort (`cmp_thin`) and returns the resulting order
+        /// without draining.
+        pub fn sorted_by_comparison(&mut self) -> Vec<RawEntry> {
+            self.q.thin.sort_unstable_by(cmp_thin);
+            self.entries()
+        }
+
+        /// Production drain (`drain_in_order`, which picks the sort by batch size).
+        pub fn drain(&mut self) -> Vec<u64> {
+            self.q.drain_in_order()
+        }
+    }
+
+    fn pending(fp: &Footprint, ix: usize) -> PendingRewrite {
+        let mut scope_hash = [0u8; 32];
+        scope_hash[..8].copy_from_slice(&(ix as u64).to_be_bytes());
+        PendingRewrite {
+            rule_id: [0u8; 32],
+            compact_rule: CompactRuleId(0),
+            scope_hash,
+            scope: NodeKey {
+                warp_id: WarpId([0u8; 32]),
+                local_id: NodeId(scope_hash),
+            },
+            footprint: fp.clone(),
+            phase: RewritePhase::Matched,
+            origin: OpOrigin::default(),
+        }
+    }
+
+    /// Feeds `footprints` in order to the production `RadixScheduler::reserve` within one
+    /// transaction and returns each decision.
+    #[must_use]
+    pub fn reserve_sequence_radix(footprints: &[Footprint]) -> Vec<bool> {
+        let mut s = RadixScheduler::default();
+        let tx = TxId::from_raw(1);
+        footprints
+            .iter()
+            .enumerate()
+            .map(|(i, fp)| {
+                let mut pr = pending(fp, i);
+                s.reserve(tx, &mut pr)
+            })
+            .collect()
+    }
+
+    /// Feeds `footprints` in order to the production `LegacyScheduler::reserve` within one
+    /// transaction and returns each decision.
+    #[must_use]
+    pub fn reserve_sequence_legacy(footprints: &[Footprint]) -> Vec<bool> {
+        let mut s = LegacyScheduler::default();
+        let tx = TxId::from_raw(1);
+        footprints
+            .iter()
+            .enumerate()
+            .map(|(i, fp)| {
+                let mut pr = pending(fp, i);
+                s.reserve(tx, &mut pr)
+            })
+            .collect()
+    }
+
+    /// The engine's receipt-side conflict predicate (`engine_impl::footprints_conflict`).
+    #[must_use]
+    pub fn footprints_conflict(a: &Footprint, b: &Footprint) -> bool {
+        crate::engine_impl::footprints_conflict(a, b)
+    }
+}
